@@ -308,8 +308,6 @@ func (r *orderRel) genSamples(rng *rand.Rand, perCfg int) {
 			for i := 0; i < n; i++ {
 				s.Keys = append(s.Keys, pool[rng.Intn(len(pool))].Idx)
 				if two {
-					f2 := u.family(familyNames[rng.Intn(len(familyNames))])
-					_ = f2
 					s.Keys2 = append(s.Keys2, pool[rng.Intn(len(pool))].Idx)
 				}
 			}
@@ -353,11 +351,11 @@ func (r *orderRel) dataFiles() map[string][]byte {
 	}
 	return map[string][]byte{
 		"od_meta.json": js(map[string]any{"n": n,
-			"isnull":  flags(func(v *uval) bool { return v.Null }),
-			"isdeep":  flags(func(v *uval) bool { return v.Deep }),
-			"isfloat": flags(func(v *uval) bool { return v.Float }),
-			"isintk":  flags(func(v *uval) bool { return v.IntK }),
-			"isbig":   flags(func(v *uval) bool { return v.Big }),
+			"isnull":    flags(func(v *uval) bool { return v.Null }),
+			"isdeep":    flags(func(v *uval) bool { return v.Deep }),
+			"isfloat":   flags(func(v *uval) bool { return v.Float }),
+			"isintk":    flags(func(v *uval) bool { return v.IntK }),
+			"isbig":     flags(func(v *uval) bool { return v.Big }),
 			"ismissing": flags(func(v *uval) bool { return v.val.IsMissing() })}),
 		"od_am.json": js(r.cmp["am"]), "od_an.json": js(r.cmp["an"]),
 		"od_dm.json": js(r.cmp["dm"]), "od_dn.json": js(r.cmp["dn"]),
